@@ -141,6 +141,19 @@ def builders(model):
     B['ProductSpaceOperator[[P2, P3], [0, P2]]'] = lambda I: inst(
         I, 'ProductSpaceOperator', [[pw(I), pw(I, 'const', 3)],
                                     [0, pw(I)]])
+    # compositions that were given a temporary for the inner result
+    for t, mk in (('Power2', lambda I: pw(I)),
+                  ('Norm', lambda I: inst(I, 'NormOperator', X()))):
+        B['OperatorComp(%s, Multiply, tmp=)' % t] = lambda I, mk=mk: inst(
+            I, 'OperatorComp', mk(I), inst(I, 'MultiplyOperator', sym_elem(
+                X(), 'm')), tmp=sym_elem(X(), 't'))
+    B['OperatorComp(ComplexModulusSquared, Multiply, tmp=)'] = (
+        lambda I: inst(I, 'OperatorComp', inst(
+            I, 'ComplexModulusSquared', NSpace((2,), 'complex128',
+                                               Rat.var('w'))),
+            inst(I, 'MultiplyOperator', sym_elem(NSpace(
+                (2,), 'complex128', Rat.var('w')), 'm')),
+            tmp=sym_elem(NSpace((2,), 'complex128', Rat.var('w')), 't')))
     # affine finite-difference operators (constant padding with a non-zero
     # constant) and arithmetic on them: alias-unsafe non-linear operators
     # whose domain equals their range
@@ -223,6 +236,18 @@ def evaluate(model, build):
     res['lin'] = I.getattr_value(der, 'is_linear')
     res['ddom'] = I.getattr_value(der, 'domain')
     res['dran'] = I.getattr_value(der, 'range')
+    # a derivative stays the derivative at its point: the operator is
+    # evaluated (both arms) and differentiated at another point before the
+    # derivative obtained above is applied
+    try:
+        I.call(A, [pt(dom, 'z')], {})
+        if not isinstance(ran, NField) and not isinstance(dom, NField):
+            from ..spacemodel import garbage_elem
+            I.call(A, [pt(dom, 'z')], {'out': garbage_elem(ran)})
+        I.call(I.call(I.getattr_value(A, 'derivative'), [pt(dom, 'z')], {}),
+               [pt(dom, 'e')], {})
+    except PyRaise:
+        pass
     try:
         got = ent(ran, I.call(der, [pt(dom, 'd')], {}))
     except PyRaise as e:
